@@ -67,7 +67,7 @@ type RegionSpec struct {
 
 var clauseKeywords = map[string]bool{"func": true, "requires": true, "ensures": true, "modifies": true, "loop": true,
 	"pure": true, "trusted": true, "inline": true, "nosafety": true, "props": true, "assume": true, "region": true,
-	"from": true, "to": true, "ghost": true, "lemma": true, "vars": true, "safetyonly": true, "field": true, "monitor": true, "end": true, "observe": true, "deadreturn": true, "locked": true, "prune": true, "atcall": true, "atsend": true, "timeout": true}
+	"from": true, "to": true, "ghost": true, "lemma": true, "vars": true, "safetyonly": true, "field": true, "monitor": true, "end": true, "observe": true, "deadreturn": true, "locked": true, "prune": true, "atcall": true, "atsend": true, "timeout": true, "atreturn": true}
 
 type rawLine struct {
 	text string
@@ -226,6 +226,17 @@ func ParseContractFile(path string) ([]*Contract, []*Decl, error) {
 			cur.TimeoutS = n
 		case "prune":
 			cur.Prune = true
+		case "atreturn":
+			// atreturn assert <expr>  (checked at every return site where the locals it names are in scope)
+			i := strings.Index(rest, "assert ")
+			if i < 0 {
+				return nil, nil, fmt.Errorf("%s:%d: atreturn assert <expr>", path, rl.line)
+			}
+			e, err := parseSpecExpr(rest[i+7:])
+			if err != nil {
+				return nil, nil, fmt.Errorf("%s:%d: %v", path, rl.line, err)
+			}
+			cur.AtCalls = append(cur.AtCalls, &AtCall{Callee: "<return>", Text: rest[i+7:], Expr: e, Line: rl.line, File: path})
 		case "atsend":
 			// atsend assert <expr>   (checked before every channel send / select with a send case; "sent" names the value)
 			i := strings.Index(rest, "assert ")
